@@ -584,6 +584,21 @@ func (g *commonGen) template(w *World, name string, b int) []Step {
 		}
 		out = append(out, cb(ob), cb(b), Step{Kind: "replay", B: b})
 		return out
+	case "oauth_provider_mixup":
+		// start at one provider; the callback, carrying the genuine state and a
+		// code that provider issued, is delivered to another provider's route
+		if len(c.Providers) < 2 {
+			return nil
+		}
+		pi := g.r.Intn(len(c.Providers))
+		prov, other := c.Providers[pi], c.Providers[(pi+1)%len(c.Providers)]
+		n := g.r.Intn(3)
+		out := []Step{{Kind: "oauth2_start", B: b, Str: map[string]string{"provider": prov}},
+			{Kind: "oauth2_callback", B: b, A: n, Sec: &SecretRef{Kind: "state", A: -1, Idx: -1}, Str: map[string]string{"provider": other, "code": "fresh", "code_provider": prov}}}
+		if g.r.Bool() {
+			out = append(out, Step{Kind: "oauth2_callback", B: b, A: n, Sec: &SecretRef{Kind: "state", A: -1, Idx: -1}, Str: map[string]string{"provider": prov, "code": "fresh"}})
+		}
+		return append(out, g.fill(w, "probe", b))
 	case "twofa_redir":
 		// 2FA login carrying a return target through both steps
 		for i := range w.Accts {
